@@ -63,6 +63,10 @@ BlockTab ==
    mac2  |-> << D("MACRO", <<"@m2">>, "", TRUE, "", ""), D("GET", <<>>, "from m2", FALSE, "", ""), D("PASTE", <<"@m1">>, "", FALSE, "", ""), CloseTok,
                 D("URL", <<"pz">>, "", FALSE, "", ""), D("PASTE", <<"@m2">>, "", FALSE, "", "") >>,                        \* nested macros: needs mac
    enumQ |-> << D("PUT", <<"pz">>, "", FALSE, "", ""), D("Query", <<"c=1">>, "", FALSE, "objen", ""), D("RESP", <<"any">>, "", FALSE, "", "200") >>, \* needs e1
+   \* two resources sharing the path parameter {x}: it is described (with an inline 'or' of rule sets, i.e. unnamed inner types)
+   \* by the Path of the shorter path only; the longer path's Path describes {y}
+   pathX |-> << D("GET", <<"pux">>, "", FALSE, "", ""), D("Path", <<>>, "", FALSE, "pxor", ""), D("RESP", <<"any">>, "", FALSE, "", "200") >>,
+   pathXY|-> << D("GET", <<"puxy">>, "", FALSE, "", ""), D("Path", <<>>, "", FALSE, "py", ""), D("RESP", <<"any">>, "", FALSE, "", "200") >>,
    sim   |-> << D("GET", <<"pax">>, "", FALSE, "", ""), D("RESP", <<"any">>, "", FALSE, "", "200") >>]          \* /a/{x}: similar to /a/{id}
 BlockIds == DOMAIN BlockTab
 
